@@ -53,19 +53,18 @@ KERNELS = [
     ("vecMulT", "transmat.h", hdr(r"operator\*", ["Vec", "TransMat"]), "TransVec", None),
     ("tvecMulMat", "transvec.h", hdr(r"operator\*", ["TransVec", "Mat"]), "TransVec", None),
     ("tvecMulMB", "transvec.h", hdr(r"operator\*", ["TransVec", "MatBase"]), "TransVec", None),
-    # matrix-valued products / trans(TransMat): the translator handles them (uncomment to see the generated form);
-    # their tie needs the nested-store lemma (two loop levels around `*c++ = s`, flat `tabulate` with / and %): not proved yet
-    # ("matMul", "mat.h", hdr(r"operator\*", ["Mat", "Mat"]), "Mat", None),
-    # ("tMulMat", "transmat.h", hdr(r"operator\*", ["TransMat", "Mat"]), "Mat", None),
-    # ("matMulT", "transmat.h", hdr(r"operator\*", ["Mat", "TransMat"]), "Mat", None),
-    # ("tMulT", "transmat.h", hdr(r"operator\*", ["TransMat", "TransMat"]), "Mat", None),
-    # ("transT", "transmat.h", hdr(r"\btrans", ["TransMat"]), "Mat", None),
+    # matrix-valued products / trans(TransMat): two loop levels around `*c++ = s` (tie: Lemmas/KernelLoopsNested.lean)
+    ("matMul", "mat.h", hdr(r"operator\*", ["Mat", "Mat"]), "Mat", None),
+    ("tMulMat", "transmat.h", hdr(r"operator\*", ["TransMat", "Mat"]), "Mat", None),
+    ("matMulT", "transmat.h", hdr(r"operator\*", ["Mat", "TransMat"]), "Mat", None),
+    ("tMulT", "transmat.h", hdr(r"operator\*", ["TransMat", "TransMat"]), "Mat", None),
+    ("transT", "transmat.h", hdr(r"\btrans", ["TransMat"]), "Mat", None),
     ("dot", "vecbase.h", hdr(r"VecBase<Float, Index, Exc>::dot", ["VecBase"]), "Float", "VecBase"),
-    # storage primitives: generated form exists, tie (overwrite of a live buffer) not proved yet -> not emitted
-    # ("baseScale", "matvecbase.h", hdr(r"void operator\*=", ["Float"]), "this", "MatVecBase"),
-    # ("baseMul", "matvecbase.h", hdr(r"void mul", ["Float", "MatVecBase"]), "out:X", "MatVecBase"),
-    # ("baseAdd", "matvecbase.h", hdr(r"void add", ["MatVecBase", "MatVecBase"]), "out:X", "MatVecBase"),
-    # ("baseSub", "matvecbase.h", hdr(r"void sub", ["MatVecBase", "MatVecBase"]), "out:X", "MatVecBase"),
+    # storage primitives: stores over a LIVE buffer (tie: forE_over / forE_inplace, Lemmas/KernelLoopsNested.lean)
+    ("baseScale", "matvecbase.h", hdr(r"void operator\*=", ["Float"]), "this", "MatVecBase"),
+    ("baseMul", "matvecbase.h", hdr(r"void mul", ["Float", "MatVecBase"]), "out:X", "MatVecBase"),
+    ("baseAdd", "matvecbase.h", hdr(r"void add", ["MatVecBase", "MatVecBase"]), "out:X", "MatVecBase"),
+    ("baseSub", "matvecbase.h", hdr(r"void sub", ["MatVecBase", "MatVecBase"]), "out:X", "MatVecBase"),
 ]
 
 
@@ -436,9 +435,11 @@ class Kernel:
         state = [n for n in bufs if n in env]
         rank = {"K": 0, "buf": 1, "ptr": 2, "nat": 3}
 
+        st0 = list(state)
+
         def key(v):
-            if self.kind.get(v) == "ptr" and self.pbuf.get(v) in self.dims or (self.kind.get(v) == "ptr" and self.data(self.pbuf[v]) in state and self.kind.get(self.pbuf[v], "buf") == "buf" and self.pbuf[v] not in self.cls):
-                return (1, 1)
+            if self.kind.get(v) == "ptr" and self.data(self.pbuf[v]) in st0:
+                return (1, 1)              # the store pointer right after its buffer
             return (rank.get(self.kind.get(v, "buf"), 1), 0 if self.kind.get(v, "buf") == "buf" else 2)
         state.sort(key=lambda v: (key(v), self.order.index(v) if v in self.order else -1))
         if not state:
@@ -542,7 +543,11 @@ class Kernel:
                 env.add(n)
         if self.ret.startswith("out:"):
             x = self.ret[4:]
-            self.kind[x] = "obj"
+            self.kind[x] = "buf"
+            env.add(x)
+        if self.ret == "this":
+            self.kind["self"] = "buf"
+            env.add("self")
         self.stmts(body, env, out, "  ")
         if self.ret == "this":
             out.append("  pure self")
@@ -552,6 +557,8 @@ class Kernel:
             rty = "Array K"
         else:
             rty = {"Vec": "Vec K", "TransVec": "Vec K", "Mat": "Mat K", "Float": "K"}[self.ret]
+        if any("x - y" in ln for ln in out):
+            binders.insert(0, "[Sub K]")
         head = f"def {self.name} {' '.join(binders)} : Except Err ({rty}) :=\n"
         if guard:
             head += f"  if {guard} then .error .badRank else do\n"
